@@ -199,6 +199,9 @@ func (e *Engine) applyHavoc(h *havocSet, st *State) {
 		}
 	}
 	for k := range h.mem {
+		if len(k) > 9 && k[:9] == "consumed:" {
+			st.readSet[k[9:]] = true
+		}
 		switch {
 		case len(k) > 7 && k[:7] == "closed:":
 			st.mem[k] = e.fresh("closed", SBool)
@@ -376,6 +379,8 @@ func (e *Engine) execRangeChan(x *ast.RangeStmt, st *State) []Out {
 		unsup("range over non-stream")
 	}
 	e.checkNotMoved(st, ch, e.src(x))
+	st.readSet[ch.ID.String()] = true
+	e.idTerms[ch.ID.String()] = ch.ID
 	pos := x.Body.Lbrace + 1
 	invs := e.loopClauses(x, "invariant")
 	if len(invs) == 0 {
